@@ -371,6 +371,10 @@ class Atom:
         if not isinstance(ln, int):
             ln = simp_bv(ln)
         if isinstance(ln, int):
+            if ln > len(bs) and ln >= (1 << 63):
+                # a wrapped (negative) length: the operation's precondition (offset <= length) is false on this branch, which the
+                # caller guards with a fork condition that is therefore unsatisfiable; any value will do
+                ln = 0; bs = ()
             bs = tuple(bs[:ln])
             assert len(bs) == ln, (ln, len(bs))
             minlen = ln
